@@ -47,6 +47,11 @@ type E struct {{
 	N int64
 }}
 
+type BL2 struct {{
+	_ string
+	X int
+}}
+
 type PS = wire.ProviderSet
 
 type holder struct{{ S wire.ProviderSet }}
@@ -110,7 +115,7 @@ def spellings():
             add("struct/%d/%d" % (k, j), inj("Init", res, "%s.Build(%s.Struct(%s), NewInt, NewStr)" % (W, W, args)))
     # --- struct shapes: same-typed fields, blank fields, embedded fields
     for k, (ty, fields) in enumerate([("D", '"*"'), ("D", '"A", "B"'), ("D", '"A", "C"'), ("D", '"A", "A"'), ("D", '"C", "B", "A"'),
-                                      ("BL", '"*"'), ("BL", '"_"'), ("BL", '"X"'), ("BL", '"X", "_"'),
+                                      ("BL", '"*"'), ("BL", '"_"'), ("BL", '"X"'), ("BL", '"X", "_"'), ("BL2", '"*"'), ("BL2", '"_", "X"'),
                                       ("E", '"*"'), ("E", '"T"'), ("E", '"N"'), ("E", '"X"'), ("E", '"T", "N"')]):
         add("shape-struct/%d" % k, inj("Init", ty, "wire.Build(wire.Struct(new(%s), %s), NewInt, NewStr, NewT, wire.Value(int64(1)), "
                                                    "wire.Value(struct{}{}))" % (ty, fields)))
@@ -154,8 +159,12 @@ def spellings():
                            "ptrVar", "len(\"abc\")", "G[int]{}", "GenericNew[int]", "1 + 2", "-1", "!true", "fieldName", "errors.New"]):
         add("value/%d" % k, inj("Init", "T", "wire.Build(NewT, wire.Value(%s))" % e))
     for k, (a, b) in enumerate([("new(I)", "T{}"), ("new(T)", "T{}"), ("nil", "T{}"), ("(*I)(nil)", "T{}"), ("new(I)", "ifaceVal"),
-                                ("new(error)", 'errors.New("x")'), ("new(I)", "nil"), ("new(any)", "1"), ("new(I)", "fn()")]):
+                                ("new(error)", 'errors.New("x")'), ("new(I)", "nil"), ("new(any)", "1"), ("new(I)", "fn()"), ("new(any)", "nil"),
+                                ("new(interface{})", "nil"), ("new(any)", "(*T)(nil)"), ("new(error)", "nil")]):
         add("ivalue/%d" % k, inj("Init", "I", "wire.Build(wire.InterfaceValue(%s, %s))" % (a, b)))
+    for k, (a, b) in enumerate([("new(any)", "nil"), ("new(interface{})", "nil"), ("new(any)", "(*T)(nil)"), ("new(any)", "T{}"), ("new(any)", "1"),
+                                ("new(any)", "ifaceVal"), ("new(any)", "fvar")]):
+        add("ivalue-any/%d" % k, inj("Init", "any", "wire.Build(wire.InterfaceValue(%s, %s))" % (a, b)))
     # --- arguments of wire.Build / NewSet
     for k, e in enumerate(["nil", "true", "42", '"s"', "fvar", "T{}.M", "func() int { return 1 }", "GenericNew[int]", "T{}", "&T{}", "len", "print",
                            "fieldName", "ptrVar", "ch", "ifaceVal", "wire.NewSet", "wire.Build", "(NewInt)", "((NewInt))", "wire.NewSet()",
@@ -165,6 +174,21 @@ def spellings():
         add("build/%d" % k, inj("Init", "int", "wire.Build(NewInt, %s)" % e, extra=extra if "Set" in e else ""))
         if k < 12:
             add("newset/%d" % k, "var S = wire.NewSet(NewInt, %s)\n\n" % e + inj("Init", "int", "wire.Build(S)"))
+    for k, e in enumerate(["os.Args", "io.EOF", "os.Stdout", "zshared.Default", "zshared.Number", "zshared.Fn", "io.Discard", "os.ErrNotExist"]):
+        res = "int"
+        add("foreignvar/%d" % k, inj("Init", res, "wire.Build(%s)" % (e if e == "zshared.Default" else "NewInt, " + e)))
+        add("foreignvar-set/%d" % k, "var S = wire.NewSet(%s)\n\n" % e + inj("Init", res, "wire.Build(S%s)" % ("" if e == "zshared.Default" else ", NewInt")))
+    # deprecated struct-literal providers, also for structs with blank and same-typed fields
+    for k, (lit, res, provs) in enumerate([("T{}", "T", "NewInt, NewStr"), ("T{}", "*T", "NewInt, NewStr"), ("BL{}", "BL", "NewInt"), ("BL{}", "*BL", "NewInt, wire.Value(struct{}{})"),
+                                           ("D{}", "D", "NewInt, NewStr"), ("E{}", "E", "NewT, wire.Value(int64(1))"), ("&T{}", "*T", "NewInt, NewStr"),
+                                           ("G[int]{}", "G[int]", "NewInt"), ("BL2{}", "BL2", "NewInt, NewStr"), ("BL2{}", "*BL2", "NewInt, NewStr"),
+                                           ("BL2{}", "BL2", "NewInt")]):
+        add("structlit/%d" % k, inj("Init", res, "wire.Build(%s, %s)" % (lit, provs)))
+    # a parameter named like a package-level provider, with and without another injector that uses the provider
+    add("paramshadow/alone", "func Init(NewInt func() int) int {\n\tpanic(wire.Build(NewInt))\n}\n")
+    add("paramshadow/after", inj("First", "int", "wire.Build(NewInt)") + "\nfunc Init(NewInt func() int) string {\n\tpanic(wire.Build(NewInt, NewStr))\n}\n")
+    add("paramshadow/set", "var S = wire.NewSet(NewInt)\n\n" + inj("First", "int", "wire.Build(S)") + "\nfunc Init(S int) string {\n\tpanic(wire.Build(S, NewStr))\n}\n")
+    add("paramshadow/local-value", "func Init(n int) *int {\n\tpanic(wire.Build(wire.Value(&n)))\n}\n")
     add("sets/multi", "func twoSets() (wire.ProviderSet, wire.ProviderSet) { return wire.NewSet(), wire.NewSet() }\n\n"
                       "var A, B = twoSets()\n\n" + inj("Init", "int", "wire.Build(NewInt)"))
     add("sets/multi-used", "func twoSets() (wire.ProviderSet, wire.ProviderSet) { return wire.NewSet(NewInt), wire.NewSet() }\n\n"
@@ -185,6 +209,8 @@ def spellings():
     add("shape/two-builds", "func Init() int {\n\twire.Build(NewInt)\n\twire.Build(NewInt)\n\treturn 0\n}\n")
     add("shape/method", "func (T) Init() int {\n\tpanic(wire.Build(NewInt))\n}\n")
     add("shape/generic", "func Init[A any]() int {\n\tpanic(wire.Build(NewInt))\n}\n")
+    add("shape/generic-used", "func Init[A any](a A, as []A) int {\n\tpanic(wire.Build(NewInt))\n}\n")
+    add("shape/method-ptr", "func (t *T) Init() int {\n\tpanic(wire.Build(NewInt))\n}\n")
     add("shape/named-results", "func Init() (n int, err error) {\n\tpanic(wire.Build(NewIntErr))\n}\n")
     add("shape/variadic", "func Init(xs ...string) int {\n\tpanic(wire.Build(NewInt))\n}\n")
     add("shape/no-result", "func Init() {\n\tpanic(wire.Build(NewInt))\n}\n")
@@ -194,6 +220,13 @@ def spellings():
     return out
 
 
+HELPERS = {
+    "zsets/zsets.go": "package zsets\n\nimport \"github.com/google/wire\"\n\nfunc NewInt() int { return 3 }\n\nvar Default = wire.NewSet(NewInt)\n\nvar Plain = 7\n",
+    # re-exports a provider set and does not import wire itself
+    "zshared/zshared.go": "package zshared\n\nimport \"%s/zsets\"\n\nvar Default = zsets.Default\n\nvar Number = zsets.Plain\n\nvar Fn = zsets.NewInt\n" % MOD,
+}
+
+
 def materialise(ws, idx, label, imp, body):
     pkg = "q%d" % idx
     d = ws.root + "/" + pkg
@@ -201,17 +234,31 @@ def materialise(ws, idx, label, imp, body):
     open(d + "/a.go", "w").write(PRELUDE.format(pkg=pkg))
     imports = {"plain": '\t"github.com/google/wire"', "renamed": '\tw "github.com/google/wire"', "dot": '\t. "github.com/google/wire"'}[imp]
     imports += '\n\t"errors"\n\t"unsafe"'
+    for extra in ("os", "io"):
+        if re.search(r"\b%s\." % extra, body):
+            imports += '\n\t"%s"' % extra
+    if "zshared." in body:
+        imports += '\n\t"%s/zshared"' % MOD
     src = HDR.format(pkg=pkg, imports=imports) + "\nvar _ = errors.New\n\n" + body
     open(d + "/wire.go", "w").write(src)
+    # what the ordinary build must still find once the template is replaced by generated code
+    m = re.search(r"(?m)^func \((\w+ )?\*?(\w+)\) (\w+)\(", body)
+    if label.startswith("shape/method") and m:
+        open(d + "/assert.go", "w").write("package %s\n\nvar _ = (*%s).%s\n" % (pkg, m.group(2), m.group(3)))
     return pkg
 
 
-def run_c20(rep, tier, known):
+def run_c20(rep, tier, known, select=None, cmds=("gen", "check", "show"), build=False):
+    """select: label prefixes to keep (None = all); build: compile the packages wire accepted (without the tag) and
+    report a package that does not compile (that is property C01's business: the caller says which property)"""
     ws = Workspace()
     fails = []
     stats = {"spellings": 0, "type_correct": 0, "accepted": 0, "rejected": 0, "panics": 0}
     try:
-        cases = spellings()
+        cases = [c for c in spellings() if select is None or c[0].startswith(tuple(select))]
+        for rel, src in HELPERS.items():
+            os.makedirs(os.path.dirname(ws.root + "/" + rel), exist_ok=True)
+            open(ws.root + "/" + rel, "w").write(src)
         pkgs = []
         for i, (label, imp, body) in enumerate(cases):
             pkgs.append((materialise(ws, i, label, imp, body), label, body))
@@ -225,9 +272,10 @@ def run_c20(rep, tier, known):
             if p in badpk:
                 shutil.rmtree(ws.root + "/" + p)
         stats["type_correct"] = len(good)
+        skip = [(0, "", "")] * len(good)
         gens = ws.wire_many([["gen", "./" + p] for p, _, _ in good], timeout=60)
-        checks = ws.wire_many([["check", "./" + p] for p, _, _ in good], timeout=60)
-        shows = ws.wire_many([["show", "./" + p] for p, _, _ in good], timeout=60)
+        checks = ws.wire_many([["check", "./" + p] for p, _, _ in good], timeout=60) if "check" in cmds else skip
+        shows = ws.wire_many([["show", "./" + p] for p, _, _ in good], timeout=60) if "show" in cmds else skip
         for (p, label, body), (rc, out, err), (rc2, out2, err2), (rc3, out3, err3) in zip(good, gens, checks, shows):
             rep.evaluations += 1
             why = []
@@ -238,7 +286,8 @@ def run_c20(rep, tier, known):
                     m = re.search(r"panic: (.*)", e)
                     why.append("wire %s crashed (exit %s): %s at %s" % (cmd, c, (m.group(1) if m else "?")[:120], site.group(1) if site else "?"))
                 elif c != 0:
-                    if not re.search(r"(?m)^wire: \S*%s/\S+\.go:\d+:\d+: " % p, e):
+                    # a position in the package itself or in another package of the user's module
+                    if not re.search(r"(?m)^wire: %s/\S+\.go:\d+:\d+: " % re.escape(ws.root), e):
                         why.append("wire %s failed (exit %d) without a diagnostic positioned in the user's sources: %s" % (cmd, c, e.strip()[-300:]))
                     if not e.strip():
                         why.append("wire %s exited %d silently" % (cmd, c))
@@ -248,7 +297,73 @@ def run_c20(rep, tier, known):
                 rep.sample({"spelling": label, "source": body[:200], "gen_exit": rc, "stderr": err.strip()[:200]})
             if why:
                 fails.append({"stream": "c20", "spelling": label, "why": why, "source": body, "stderr": (err + err2 + err3)[-1500:]})
+        if build:
+            acc = [(p, label, body) for (p, label, body), (rc, out, err) in zip(good, gens) if rc == 0]
+            for p, _, _ in good:
+                if p not in {a[0] for a in acc}:
+                    shutil.rmtree(ws.root + "/" + p, ignore_errors=True)
+            rcb, outb, errb = run(["go", "build", "./..."], cwd=ws.root, env=dict(GOENV), timeout=600)
+            stats["compiled"] = len(acc)
+            if rcb != 0:
+                for p, label, body in acc:
+                    msgs = re.findall(r"(?m)^(?:\./)?%s/[\w.]+\.go:\d+:\d+: .*$" % p, outb + errb)
+                    if msgs:
+                        gen_src = open(ws.root + "/" + p + "/wire_gen.go").read() if os.path.exists(ws.root + "/" + p + "/wire_gen.go") else ""
+                        fails.append({"stream": "c20-build", "spelling": label, "source": body, "wire_gen.go": gen_src[:2500],
+                                      "why": ["wire gen succeeded on the spelling %s but the package does not compile: %s" % (label, msgs[0][:300])]})
     finally:
         ws.close()
     rep.coverage["c20"] = stats
+    return [], fails
+
+
+def run_paramshadow(rep, tier):
+    """C14: what an identifier in wire.Build denotes is decided by Go's scoping, not by its spelling: an injector whose
+    parameter shadows a package-level provider / set must get the same verdict whether or not another injector of the
+    package mentions that provider / set."""
+    ws = Workspace()
+    fails = []
+    try:
+        variants = {
+            "prov": ("NewInt func() int", "int", "NewInt", inj("First", "int", "wire.Build(NewInt)")),
+            "set": ("S bool", "int", "S", "var S = wire.NewSet(NewInt)\n\n" + inj("First", "int", "wire.Build(S)")),
+            "setlater": ("S bool", "int", "S", "var S = wire.NewSet(NewInt)\n\n"),
+            "value": ("V bool", "string", "V", "var V = wire.Value(\"v\")\n\n" + inj("First", "string", "wire.Build(V)")),
+        }
+        pk = []
+        for name, (param, res, args, before) in variants.items():
+            for mode in ("alone", "after", "before"):
+                me = "func Init(%s) %s {\n\tpanic(wire.Build(%s))\n}\n" % (param, res, args)
+                first = before if mode != "alone" else "\n".join(l for l in before.split("\n\n")[0:1] if l.startswith("var")) + "\n\n"
+                body = (first + me) if mode != "before" else (me + "\n" + before)
+                if mode == "alone":
+                    body = (before.split("\n\n")[0] + "\n\n" if before.startswith("var") else "") + me
+                pk.append((materialise(ws, len(pk), "ps/%s/%s" % (name, mode), "plain", body), name, mode, body))
+        rc, out, err = run(["go", "vet", "-tags", "wireinject", "./..."], cwd=ws.root, env=dict(GOENV), timeout=300)
+        bad = set(re.findall(r"(?m)^# %s/(q\d+)" % re.escape(MOD), out + err))
+        res = ws.wire_many([["gen", "./" + p] for p, _, _, _ in pk], timeout=60)
+        verdict = {}
+        for (p, name, mode, body), (rc, out, err) in zip(pk, res):
+            if p in bad:
+                continue
+            rep.evaluations += 1
+            rep.nontrivial.add("paramshadow/%s/%s" % (name, mode))
+            ok_init = rc == 0
+            if panicked(err):
+                fails.append({"stream": "c14-paramshadow", "why": ["wire panicked: " + err[-300:]], "source": body})
+                continue
+            verdict[(name, mode)] = (ok_init, err.strip()[-300:], body)
+        for name in variants:
+            base = verdict.get((name, "alone"))
+            for mode in ("after", "before"):
+                v = verdict.get((name, mode))
+                if base and v and base[0] != v[0]:
+                    fails.append({"stream": "c14-paramshadow", "source": v[2], "stderr": v[1],
+                                  "why": ["an injector whose parameter shadows the package-level %s of the same name is %s when another "
+                                          "injector of the package (%s it) mentions that name, but %s on its own: the parameter was taken for "
+                                          "the package-level object" % (name, "accepted" if v[0] else "rejected", mode, "accepted" if base[0] else "rejected")]})
+            if base and base[0]:
+                fails.append({"stream": "c14-paramshadow", "source": base[2], "why": ["a parameter passed to wire.Build was accepted as a provider"]})
+    finally:
+        ws.close()
     return [], fails
